@@ -171,7 +171,9 @@ def run_lexer(pid, name, *, cases=None, cfgs=None, grow=None, invariants=ALL_INV
         f = d / "cases.json"
         f.write_text(json.dumps({
             "cfgs": cfgs,
-            "cases": [dict(c, c=c["c"] + 1) for c in cases],
+            "cases": [dict(c, c=c["c"] + 1,
+                           alt=({"ps": c["alt"]["ps"], "c": c["alt"]["c"] + 1} if c.get("alt") else {"ps": [], "c": 0}))
+                      for c in cases],
         }))
         env["LEXER_CASES"] = str(f)
         pieces, gcfgs, mx, st, plain, usefile = [], [], 0, True, False, True
@@ -392,7 +394,7 @@ def raw_lookalikes(cfg):
     return [bs + "_Ea_" + be, bs, be, vs, ve, cs, ce, bs + "-", "E", "R"]
 
 
-def gen_structured(rng, cfg, n, rich=True):
+def gen_structured(rng, cfg, n, rich=True, raw_text_only=False):
     """A random well-formed piece sequence of about n pieces for cfg."""
     ps = []
     in_raw = False
@@ -405,9 +407,9 @@ def gen_structured(rng, cfg, n, rich=True):
             p = P("rawclose", rng.choice(SIGNS), rng.choice(SIGNS),
                   rng.choice(TAG_BODIES["rawclose"]) if rich else "_E_")
             in_raw_next = False
-        elif x < 0.42:
+        elif x < 0.42 or (in_raw and raw_text_only):
             body = rng.choice(TEXT_BODIES if rich else ["a", "_", "n"])
-            if in_raw and rich and rng.random() < 0.3:
+            if in_raw and rich and not raw_text_only and rng.random() < 0.3:
                 body = rng.choice(look)
             p = text(body)
             in_raw_next = in_raw
@@ -417,7 +419,8 @@ def gen_structured(rng, cfg, n, rich=True):
             r = rng.choice(SIGNS if kind in ("block", "comment") else ("", "-"))
             if kind == "comment":
                 b = rng.choice(cb) if rich else "_a_"
-                if b == "" and (l or r):
+                if b == "" and (l or r or raw_text_only):
+                    # (translated programs: "<!--" + "-->" would read as "<!---" "->")
                     b = "_"
             else:
                 b = rng.choice(TAG_BODIES[kind]) if rich else TAG_BODIES[kind][0]
